@@ -8,6 +8,9 @@ import Ipv8.C13.TableF
 import Ipv8.C13.TableG
 import Ipv8.C13.TableH
 import Ipv8.C13.TableI
+import Ipv8.C13.TableJ
+import Ipv8.C13.TableK
+import Ipv8.C13.TableL
 
 namespace Ipv8.C13
 
